@@ -1652,7 +1652,7 @@ func init() {
 	Register(Spec[c38DecIn]{
 		ID: "C38", Suite: "dec", CoqImports: []string{"Check.C38"},
 		CoqType: "string * bool * string", CoqRun: "Check.C38.run_dec",
-		Quick: 800, Thorough: 15000,
+		Quick: 800, Thorough: 10000,
 		Corpus: func() []c38DecIn {
 			return []c38DecIn{{"SDPType", true, "Offer"}, {"SDPType", false, "Offer"}, {"ICEProtocol", false, "UDP"},
 				{"SDPType", true, "unknown"}, {"ICECandidateType", true, "unknown"}, {"BundlePolicy", true, "unknown"},
@@ -1669,13 +1669,13 @@ func init() {
 	Register(Spec[c38StructIn]{
 		ID: "C38", Suite: "struct", CoqImports: []string{"Check.C38"},
 		CoqType: "Check.C38.struct_in", CoqRun: "Check.C38.run_struct",
-		Quick: 1000, Thorough: 15000,
+		Quick: 1000, Thorough: 10000,
 		Corpus: c38StructCorpus, Gen: c38StructGen, Run: c38StructRun, Coq: c38StructCoq, Shrink: c38StructShrink,
 	})
 	Register(Spec[c38J]{
 		ID: "C38", Suite: "srvjson", CoqImports: []string{"Model.Serial", "Check.C38"},
 		CoqType: "Model.Serial.json", CoqRun: "Check.C38.run_srvjson",
-		Quick: 1000, Thorough: 15000,
+		Quick: 1000, Thorough: 8000,
 		Corpus: func() []c38J {
 			return []c38J{
 				jO(c38KV{"urls", c38J{T: "n"}}),
@@ -1692,7 +1692,7 @@ func init() {
 	Register(Spec[c38StatsIn]{
 		ID: "C38", Suite: "stats", CoqImports: []string{"Check.C38"},
 		CoqType: "string * string * string * list Z", CoqRun: "Check.C38.run_stats",
-		Quick: 700, Thorough: 12000, Parallel: 8,
+		Quick: 700, Thorough: 8000, Parallel: 8,
 		Corpus: func() []c38StatsIn {
 			out := c38StatsCorpus()
 			// ICECandidateType(0) inside a stats object: witness
@@ -1711,7 +1711,7 @@ func init() {
 	Register(Spec[c38PEMIn]{
 		ID: "C38", Suite: "pem", CoqImports: []string{"Check.C38"},
 		CoqType: "list Check.C38.blk", CoqRun: "Check.C38.run_pem",
-		Quick: 300, Thorough: 4000, Parallel: 8,
+		Quick: 300, Thorough: 3000, Parallel: 8,
 		Corpus: func() []c38PEMIn {
 			return []c38PEMIn{
 				{[]string{"C0", "K0"}}, {[]string{"C1", "K1"}}, {[]string{"C2", "K2"}}, {[]string{"C3", "K3"}},
